@@ -381,4 +381,13 @@ example : received (runHist (Server.init 1) demo) 1 = [pushMsg [97] [120]] ∧
   · rw [show PubSub.expected 2 (absHist demo).reverse = [([97], [120]), ([97], [121]), ([98], [122])] from by decide +kernel]; rfl
   · rw [show PubSub.expected 3 (absHist demo).reverse = [] from by decide +kernel]; rfl
 
+/-- after the first three events of `demo` (1 and 2 subscribed to "a"), a PUBLISH by 3 replies `:2` -/
+example : ∃ rs : List Nat, rs.Nodup ∧ ((runHist (Server.init 1) (demo.take 3)).srv.execOn { now := 9 } 3 [nPublish, [97], [120]]).1.2 = .int rs.length ∧
+    (∀ t, t ∈ rs ↔ PubSub.subscribed t [97] (absHist (demo.take 3)).reverse = true) := by
+  obtain ⟨rs, h1, h2, h3, _⟩ := history_publish_reply (Server.init 1) rfl rfl (demo.take 3) { now := 9 } 3 nPublish [97] [120] (by decide)
+  exact ⟨rs, h1, h3, h2⟩
+
+example (t : Nat) : ((delivered (Server.init 1) { now := 0 } 3 [nPublish, [97], [120]]).filter (·.1 == t)).map (·.2) = [] := by
+  rw [publish_step_delivery (Server.init 1) { now := 0 } 3 nPublish [97] [120] (by decide) List.nodup_nil rfl t]; rfl
+
 end Exec.C19
